@@ -413,3 +413,60 @@ def _(v):
     ok = ReactionSystem([Reaction({"peroxide": 2}, {"water": 2, "oxygen": 1}, checks=())], subs)
     B, ck = v.call(ok.composition_balance_vectors)
     v.prove("vectors_columns_are_the_keyed_substances", list(ck) == [0, 1, 8, 26] and [list(r) for r in B] == [[0, 0, 0, 3, 2], [2, 2, 0, 0, 0], [2, 1, 2, 0, 0], [0, 0, 0, 1, 1]])
+
+
+@harness("C05", "alternative_builder_invariants", functions=["chempy.kinetics.ode:_create_odesys"], kind="data")
+def _(v):
+    """'the reported composition vectors are exact linear invariants of the kinetic right-hand side', for the alternative builder _create_odesys
+    as well: whatever it hands to the ODE system as linear_invariants annihilates the right-hand side it hands over, identically in all symbols --
+    in a closed system (where the composition vectors must be reported) and with a feed (where the element totals change, so they must not)"""
+    import sympy
+    from chempy.reactionsystem import ReactionSystem
+    from chempy.kinetics.ode import _create_odesys
+    rs = ReactionSystem.from_string("2 H2O2 -> 2 H2O + O2; 'k1'\nH2O -> H+ + OH-; 'k2'", "H2O2 H2O O2 H+ OH-".split())
+    for label, kw in (("closed", {}), ("with_a_feed", {"rates_kw": dict(cstr_fr_fc=("fr", {k: "fc_" + k for k in rs.substances}))})):
+        try:
+            o, _e = _create_odesys(rs, **kw)
+            inv = o.linear_invariants
+            rows = [] if inv is None else [list(r) for r in (inv.tolist() if hasattr(inv, "tolist") else inv)]
+            resid = [sympy.expand(sum(sympy.nsimplify(c) * e for c, e in zip(row, o.exprs))) for row in rows]
+            ok, det = all(r == 0 for r in resid), repr(resid)[:300]
+            if label == "closed":
+                ok = ok and len(rows) == 3                       # H, O and charge
+        except Exception as ex:
+            ok, det = False, repr(ex)[:200]
+        v.prove(label + ".reported_vectors_annihilate_the_right_hand_side", ok, detail=det)
+
+
+@harness("C05", "exact_fraction_compositions", functions=["chempy.chemistry:Reaction.composition_violation", "chempy.reactionsystem:ReactionSystem.check_balance"], kind="data")
+def _(v):
+    """'accepted if and only if every reaction leaves every composition key unchanged', decided in the arithmetic of the compositions as given:
+    with exact Fraction amounts (2.1 + 2.2 = 4.3 has no exact float form) a balanced reaction has violation exactly 0 in every key and is
+    accepted; the violation of an unbalanced one is the exact Fraction; Decimal amounts likewise"""
+    from decimal import Decimal
+    from fractions import Fraction as Fr
+    from chempy.chemistry import Reaction, Substance
+    from chempy.reactionsystem import ReactionSystem
+    for label, num in (("fraction", lambda a, b: Fr(a, b)), ("decimal", lambda a, b: Decimal(a) / Decimal(b))):
+        subs = [Substance("UO2.1", composition={92: 1, 8: num(21, 10)}), Substance("UO2.2", composition={92: 1, 8: num(22, 10)}), Substance("UO2.4", composition={92: 1, 8: num(24, 10)}),
+                Substance("U3O6.7", composition={92: 3, 8: num(67, 10)})]
+        rxn = Reaction({"UO2.1": 1, "UO2.2": 1, "UO2.4": 1}, {"U3O6.7": 1})
+        try:
+            viol = list(rxn.composition_violation({s.name: s for s in subs}))
+            rs = ReactionSystem([rxn], subs)
+            ok, det = all(x == 0 for x in viol) and rs.check_balance(strict=True) is True, repr(viol)
+        except Exception as ex:
+            ok, det = False, repr(ex)[:200]
+        v.prove(label + ".balanced_is_exactly_zero_and_accepted", ok, detail=det)
+        bad = Reaction({"UO2.1": 3}, {"U3O6.7": 1})
+        try:
+            viol = dict(zip(*reversed(bad.composition_violation({s.name: s for s in subs}, composition_keys=True))))
+            ok, det = viol == {8: num(4, 10), 92: 0}, repr(viol)
+            try:
+                ReactionSystem([bad], subs)
+                ok = False
+            except ValueError:
+                pass
+        except Exception as ex:
+            ok, det = False, repr(ex)[:200]
+        v.prove(label + ".unbalanced_has_the_exact_violation_and_is_refused", ok, detail=det)
